@@ -1,6 +1,9 @@
 package c20
 
 import (
+	"fmt"
+	"strings"
+
 	"github.com/zclconf/go-cty/cty"
 	"github.com/zclconf/go-cty/cty/function"
 	"github.com/zclconf/go-cty/cty/function/stdlib"
@@ -92,8 +95,45 @@ var stdFns = []stdFn{
 	{"not", stdlib.NotFunc, isBool, false, a1},
 }
 
+func paramsFP(f function.Function) string {
+	var sb strings.Builder
+	fmt.Fprintf(&sb, "%q", f.Description())
+	for _, p := range f.Params() {
+		fmt.Fprintf(&sb, "|%s %q %s %t %t %t %t", p.Name, p.Description, typeFP(p.Type), p.AllowNull, p.AllowUnknown, p.AllowDynamicType, p.AllowMarked)
+	}
+	if vp := f.VarParam(); vp != nil {
+		fmt.Fprintf(&sb, "|...%s %q %s", vp.Name, vp.Description, typeFP(vp.Type))
+	}
+	return sb.String()
+}
+
 func stdlibOps() []opDef {
 	var out []opDef
+	// the shared Function object itself: accessor results are mutated, a re-described copy is made
+	out = append(out, opDef{name: "Function.Params", need: "v", run: func(x *opctx) outcome {
+		var o outcome
+		f := stdFns[int(x.k%uint64(len(stdFns)))].f
+		first := paramsFP(f)
+		o.addf("%s", first)
+		ps := f.Params()
+		vp := f.VarParam()
+		for i := range ps {
+			ps[i].Name, ps[i].Description, ps[i].Type, ps[i].AllowNull = "mutated", "mutated", cty.Bool, !ps[i].AllowNull
+		}
+		if vp != nil {
+			vp.Name, vp.Type = "mutated", cty.Bool
+		}
+		descs := make([]string, len(ps))
+		for i := range descs {
+			descs[i] = "other description"
+		}
+		g := f.WithNewDescriptions("other", descs)
+		o.addf("%s", paramsFP(g))
+		if again := paramsFP(f); again != first {
+			x.fail("Function.Params", "mutating the returned parameter descriptions (or re-describing a copy) changed what the function reports", "", firstDiff(first, again))
+		}
+		return o
+	}})
 	for _, sf := range stdFns {
 		sf := sf
 		out = append(out, opDef{name: "stdlib." + sf.name, need: "vv", p0: sf.p0, same: sf.same, run: func(x *opctx) outcome {
